@@ -19,6 +19,7 @@ struct Gen {
   std::vector<int> last_slots;  // recently produced values (most recent last)
   bool has_avx2 = true;
   int large_life_focus = -1;
+  int storm_focus = -1;
   struct LastParams { uint64_t m; double divisor; uint32_t l2; };
   std::map<std::pair<int, int>, LastParams> last_simple;  // (task, op) -> parameters of the previous call (cache collisions)
 
@@ -346,6 +347,16 @@ struct Gen {
         set(0, res, rs);
         set(1, a, cur_limbs(a));
         set(2, b, cur_limbs(b));
+        if ((res == a || res == b) && r.chance(35, 100)) {
+          // aliased, and res longer than the operand it aliases (zero extension inside the same buffer)
+          int k = res == a ? 1 : 2;
+          if (a == b) {
+            c.sz[1] = c.sz[2] = r.below(c.sz[1] + 1);
+          } else
+            c.sz[k] = r.below(c.sz[k] + 1);
+          if (!cfg.zero_sizes && c.sz[1] == 0 && cur_limbs(a)) c.sz[1] = 1;
+          if (!cfg.zero_sizes && c.sz[2] == 0 && cur_limbs(b)) c.sz[2] = 1;
+        }
         break;
       }
       case OP_NORMALIZE: {
@@ -368,6 +379,32 @@ struct Gen {
           uint64_t rs = r.below(asz + 1);
           if (!cfg.zero_sizes && rs == 0) rs = 1;
           if (r.chance(1, 4)) rs = asz + r.below(3);
+          if (!ntt && r.chance(40, 100)) {
+            // the same chain through a big vector and the (range) normalisation: lift with big_add_small2(a, 0)
+            Call lc;
+            lc.op = OP_BIG_ADD_SMALL2;
+            lc.mod = mod;
+            int z = new_input_zv(mod, 1, 1, PAT_ZERO);
+            int bg = new_out(T_BIG, mod, asz);
+            lc.s[0] = bg;
+            lc.s[1] = a;
+            lc.s[2] = z;
+            lc.sz[0] = asz;
+            lc.sz[1] = asz;
+            lc.sz[2] = 1;
+            if (!push_call(lc)) return false;
+            c.op = r.chance(1, 2) ? OP_BIG_NORMALIZE : OP_BIG_RANGE_NORMALIZE;
+            set(0, new_out(T_ZV, mod, rs), rs);
+            set(1, bg, asz);
+            c.p[0] = k;
+            if (c.op == OP_BIG_RANGE_NORMALIZE) {
+              // every step-th limb up to and including the last one (which starts the chain)
+              c.p[3] = 1 + r.below(3);
+              c.p[1] = (asz - 1) % c.p[3];
+              c.p[2] = asz;
+            }
+            break;
+          }
           set(0, new_out(T_ZV, mod, rs), rs);
           set(1, a, asz);
           c.p[0] = k;
@@ -415,6 +452,15 @@ struct Gen {
         set(0, res, rs);
         set(1, a, cur_limbs(a));
         set(2, b, cur_limbs(b));
+        if ((res == a || res == b) && r.chance(35, 100)) {
+          int k = res == a ? 1 : 2;
+          if (a == b)
+            c.sz[1] = c.sz[2] = r.below(c.sz[1] + 1);
+          else
+            c.sz[k] = r.below(c.sz[k] + 1);
+          if (!cfg.zero_sizes && c.sz[1] == 0 && cur_limbs(a)) c.sz[1] = 1;
+          if (!cfg.zero_sizes && c.sz[2] == 0 && cur_limbs(b)) c.sz[2] = 1;
+        }
         break;
       }
       case OP_BIG_ADD_SMALL:
@@ -584,6 +630,10 @@ struct Gen {
     return min_m;
   }
   double pick_divisor(uint64_t m) {
+    if (r.chance(12, 100)) {
+      static const double frac[] = {0.5, 0.25, 0.0625, 1.0 / 1024};
+      return frac[r.below(4)];  // any power of two is a legal divisor
+    }
     switch (r.below(4)) {
       case 0: return 1;
       case 1: return 2;
@@ -616,10 +666,19 @@ struct Gen {
       }
       pick -= k.weight;
     }
+    if (simple && cfg.simple_storm) {
+      static const int storm_ops[] = {OP_CPLX_FFT, OP_CPLX_IFFT, OP_REIM_FFT, OP_REIM_IFFT, OP_REIM_MUL, OP_CPLX_MUL, OP_REIM_TO_ZNX64, OP_CPLX_TO_TNX32, OP_REIM_FROM_ZNX64, OP_CPLX_FROM_ZNX32, OP_R4_MUL};
+      if (storm_focus < 0) storm_focus = storm_ops[r.below(11)];
+      op = r.chance(85, 100) ? storm_focus : storm_ops[r.below(11)];
+    }
     if (simple && op_info[op].twin == OP_NONE) op = OP_REIM_TO_ZNX64;
-    if (simple && cfg.small_pools && r.chance(30, 100)) op = r.chance(1, 2) ? OP_REIM_TO_ZNX64 : OP_CPLX_TO_TNX32;  // the parameter-cached twins
+    if (simple && cfg.small_pools && r.chance(36, 100)) {
+      static const int cached[] = {OP_REIM_TO_ZNX64, OP_CPLX_TO_TNX32, OP_REIM_FROM_ZNX64};  // twins whose tables depend on more than m
+      op = cached[r.below(3)];
+    }
     const bool r4 = op >= OP_R4_MUL && op <= OP_R4_TO_CPLX;
     uint64_t m = pick_m(r4 ? 4 : 1);
+    if (simple && cfg.simple_storm) m = 1ull << r.range(r4 ? 2 : 0, 11);  // a dozen dimensions in one process
     // deliberate cache-slot collisions: stay on the previous call's dimension (and often divisor) on this thread
     const std::pair<int, int> lkey(cur_task, op);
     const bool collide = simple && cfg.small_pools && last_simple.count(lkey) && r.chance(65, 100);
@@ -653,11 +712,14 @@ struct Gen {
         c.s[1] = new_raw(T_F64, 2 * m, true, (int)r.range(1, 20));
         c.s[2] = new_raw(T_F64, 2 * m, true, (int)r.range(1, 20));
         break;
-      case OP_REIM_FROM_ZNX64:
-        l2 = (uint32_t)r.range(0, 50);
+      case OP_REIM_FROM_ZNX64: {
+        // documented domain: all coefficients strictly below 2^log2bound in absolute value
+        static const uint32_t bnds[] = {50, 50, 45, 31, 30, 20, 8, 0};
+        l2 = r.chance(1, 2) ? bnds[r.below(8)] : (uint32_t)r.range(0, 50);
         c.s[0] = new_raw(T_F64, 2 * m, false, 0);
-        c.s[1] = new_raw(T_I64, 2 * m, true, (int)r.range(1, 50));
+        c.s[1] = new_raw(T_I64, 2 * m, true, l2 == 0 ? 0 : (r.chance(1, 2) ? (int)l2 : (int)r.range(1, (int)l2)));
         break;
+      }
       case OP_REIM_TO_ZNX64: {
         divisor = collide && r.chance(60, 100) ? last_simple[lkey].divisor : pick_divisor(m);
         static const uint32_t bnds[] = {49, 50, 51, 63};
@@ -930,7 +992,7 @@ struct Gen {
     if (lk == 7) {
       c.op = OP_LIFE_FFT_BUFFERS;
       c.p[0] = r.below(4);
-      c.p[1] = 1ull << r.range(c.p[0] >= 2 ? 0 : 0, cfg.max_log2n + 2);
+      c.p[1] = 1ull << (r.chance(15, 100) ? r.range(10, 12) : r.range(0, cfg.max_log2n + 2));
       c.p[2] = r.below(3);
       return push_call(c);
     }
@@ -1092,6 +1154,7 @@ struct Gen {
     if (cfg.edge_products && cfg.module_ops && !P.modules.empty() && r.chance(4, 100)) return emit_edge_product((int)r.below(P.modules.size()));
     int wm = cfg.module_ops ? 55 : 0, wt = cfg.table_ops ? 20 : 0, ws = cfg.simple_ops ? 20 : 0, wq = cfg.q120 ? 8 : 0, wl = cfg.life_ops ? 8 : 0,
         wr = cfg.repeats ? 30 : 0;
+    if (cfg.simple_storm) return emit_table_op(true);
     if (cfg.large_world) {
       if (cfg.life_ops && x < 45) return emit_life_op();
       return emit_module_op((int)r.below(P.modules.size()));
